@@ -4,8 +4,24 @@ from rules import zincspec
 
 def check(ctx):
     rep = ctx.rep
+    from rules import tz as _tzr
+    nr = _tzr.check_component_rebuild(ctx, rep)
+    rep.floor("timestamps rebuilt from components", nr, 1)
+    nu = _tzr.check_utc_shortcut(ctx, rep)
+    rep.floor("lookup-free UTC results in the Zinc reader", nu, 1)
     n = zincspec.check(ctx, rep)
     rep.floor("token-level table rows compared with the grammar", n, 38)
+    from rules import escapes
+    escapes.check_element_encoding(ctx, rep)
+    nn = escapes.check_nesting_flag(ctx, rep)
+    rep.floor("zinc_encode call sites (nesting flag)", nn, 5)
+    ns = escapes.check_separators(ctx, rep)
+    rep.floor("separator writes inside enumerate loops", ns, 4)
+    ng = escapes.check_grid_layout(ctx, rep)
+    rep.floor("grid header layout obligations", ng, 5)
+    escapes.check_column_layout(ctx, rep)
+    nw = escapes.check_write_methods(ctx, rep)
+    rep.floor("io::Write calls in the Zinc writer", nw, 45)
     rep.assume("A5: spec/zinc.json is a faithful transcription of the published Zinc grammar (written offline; uncertain entries omitted)")
     rep.note("Not decided: whole-grammar equivalence of the hand-written recursive-descent parser (whitespace, trailing commas, grid layout).")
     return ("%d table rows: the Str reader's escape map contains the grammar's with the same code points; every escape the Str and Uri writers can "
